@@ -11,6 +11,7 @@
  */
 #include "tokenizer/tokenize_cleanup.h"
 
+#include "char_table.h"
 #include "chunk.h"
 #include "keywords.h"
 #include "log_rules.h"
@@ -694,6 +695,16 @@ void tokenize_cleanup()
                // Change tmp into a type so that space_needed() works right
                make_type(tmp);
                size_t num_sp = space_needed(tmp2, tmp);
+
+               // two words must stay apart whatever the spacing options say ('const char', not 'constchar')
+               if (  num_sp == 0
+                  && next->Len() > 0
+                  && tmp->Len() > 0
+                  && CharTable::IsKw2(next->GetStr()[next->Len() - 1])
+                  && CharTable::IsKw2(tmp->GetStr()[0]))
+               {
+                  num_sp = 1;
+               }
 
                while (num_sp-- > 0)
                {
